@@ -455,7 +455,7 @@ Definition plain_seg (s : str) : bool := negb (is_empty s || is_dot s || is_dotd
     Unspecified (None) for malformed escapes and for empty or dot segments. *)
 Definition spec_route (m : meth) (wire : str) : option routed :=
   match split_on slash wire with
-  | [] :: segs =>
+  | [] :: (_ :: _) as segs =>
       if forallb plain_seg segs then
         match unescape_all segs with
         | Some segs' =>
